@@ -39,6 +39,9 @@ pub enum AlgMode {
     Relabel(String),
     /// Re-signed by a roster key of another family under that family's algorithm.
     ResignOtherFamily(String),
+    /// Re-signed by a roster key whose public JWK is embedded in the protected header (`jwk`),
+    /// optionally with a `kid` / `x5c`-style hint: the token vouches for its own key.
+    ResignEmbedJwk(String),
 }
 
 #[derive(Clone, Copy, Debug, Serialize, Deserialize, PartialEq)]
@@ -539,6 +542,23 @@ pub fn apply(f: &Fault, m: &mut Message, tokens: &[Message], w: &mut World, now:
                     let v: Vec<&str> = t.split('.').collect();
                     if v.len() == 3 {
                         m.h = v[0].into();
+                        m.s = v[2].into();
+                    }
+                }
+                AlgMode::ResignEmbedJwk(kid) => {
+                    let Some(claims) = model::decode_jwt_part(&m.p) else { return false };
+                    if kid.starts_with("hs") {
+                        return false;
+                    }
+                    let Ok(alg) = keys::alg_of(kid).parse::<jsonwebtoken::Algorithm>() else { return false };
+                    let mut header = jsonwebtoken::Header::new(alg);
+                    header.jwk = Some(keys::jwk(kid));
+                    header.kid = Some("embedded".into());
+                    if let Ok(t) = jsonwebtoken::encode(&header, &claims, &keys::enc_key(kid)) {
+                        w.signed_by.entry(kid.clone()).or_default().push(t.clone());
+                        let v: Vec<&str> = t.split('.').collect();
+                        m.h = v[0].into();
+                        m.p = v[1].into();
                         m.s = v[2].into();
                     }
                 }
